@@ -142,6 +142,18 @@ fn deliver(
                 ops.push(op.clone());
             }
         }
+        let handle_number = sh.handles.get(&entity).copied();
+        for (react_frame, e, act, react_kind, op, fired) in sh.reactevs.iter_mut() {
+            if !*fired
+                && *react_frame == frame
+                && Some(*e) == handle_number
+                && *act == a
+                && react_kind.as_str() == kind
+            {
+                *fired = true;
+                ops.push(op.clone());
+            }
+        }
         if ops.is_empty() {
             return;
         }
@@ -669,6 +681,9 @@ impl Runner {
             }
             Op::Inject(mode) => self.inject = mode,
             Op::React(frame, k, ref life) => shared().reacts.push((frame, k, life.clone())),
+            Op::ReactEv(frame, e, a, ref kind, ref life) => {
+                shared().reactevs.push((frame, e, a, kind.clone(), life.clone(), false))
+            }
             Op::Post(ref life) => shared().posts.push(life.clone()),
             Op::Frame => self.run_frame(out),
         }
